@@ -21,7 +21,7 @@ func (u Unsafe) NewEntity(ids ...ID) Entity {
 
 // NewEntityRel creates a new entity with the given components and relation targets.
 func (u Unsafe) NewEntityRel(ids []ID, relations ...Relation) Entity {
-	u.cachedRelations = relationSlice(relations).ToRelationIDsForUnsafe(u.world, u.cachedRelations[:0])
+	u.cachedRelations = relationSlice(relations).ToCheckedRelationIDsForUnsafe(u.world, nonNilIDs(ids), u.cachedRelations[:0])
 	entity, mask := u.world.newEntity(ids, u.cachedRelations)
 	u.world.storage.observers.FireCreateEntityIfHas(entity, mask)
 	if len(relations) > 0 {
@@ -79,7 +79,7 @@ func (u Unsafe) GetRelationUnchecked(entity Entity, comp ID) Entity {
 
 // SetRelations sets relation targets for an entity.
 func (u Unsafe) SetRelations(entity Entity, relations ...Relation) {
-	u.cachedRelations = relationSlice(relations).ToRelationIDsForUnsafe(u.world, u.cachedRelations[:0])
+	u.cachedRelations = relationSlice(relations).ToCheckedRelationIDsForUnsafe(u.world, nil, u.cachedRelations[:0])
 	u.world.setRelations(entity, u.cachedRelations)
 }
 
@@ -97,7 +97,7 @@ func (u Unsafe) AddRel(entity Entity, comps []ID, relations ...Relation) {
 	if !u.world.Alive(entity) {
 		panic("can't add components to a dead entity")
 	}
-	u.cachedRelations = relationSlice(relations).ToRelationIDsForUnsafe(u.world, u.cachedRelations[:0])
+	u.cachedRelations = relationSlice(relations).ToCheckedRelationIDsForUnsafe(u.world, addedIDs(comps), u.cachedRelations[:0])
 	oldMask, newMask := u.world.add(entity, comps, u.cachedRelations)
 	u.world.storage.observers.FireAddIfHas(OnAddComponents, entity, oldMask, newMask)
 	if len(relations) > 0 {
@@ -118,7 +118,7 @@ func (u Unsafe) Exchange(entity Entity, add []ID, remove []ID, relations ...Rela
 	if !u.world.Alive(entity) {
 		panic("can't exchange components on a dead entity")
 	}
-	u.cachedRelations = relationSlice(relations).ToRelationIDsForUnsafe(u.world, u.cachedRelations[:0])
+	u.cachedRelations = relationSlice(relations).ToCheckedRelationIDsForUnsafe(u.world, nonNilIDs(add), u.cachedRelations[:0])
 	oldMask, newMask := u.world.exchange(entity, add, remove, u.cachedRelations)
 
 	if len(add) > 0 {
@@ -203,4 +203,21 @@ func (u Unsafe) LoadEntities(data *EntityDump) {
 		tableIdx := table.Add(entity)
 		u.world.storage.entities[entity.id] = entityIndex{table: table.id, row: tableIdx}
 	}
+}
+
+// nonNilIDs returns the given IDs, or an empty non-nil slice.
+func nonNilIDs(ids []ID) []ID {
+	if ids == nil {
+		return []ID{}
+	}
+	return ids
+}
+
+// addedIDs returns the given IDs, or nil (no membership check) if there are none:
+// an operation that adds nothing is rejected for that reason.
+func addedIDs(ids []ID) []ID {
+	if len(ids) == 0 {
+		return nil
+	}
+	return ids
 }
